@@ -423,5 +423,6 @@ func runC08(c *core.Ctx) {
 	jobs, deaths := pool.Stats()
 	c.Count("l2_jobs", jobs)
 	c.Count("l2_process_deaths", deaths)
+	c.Count("l2_priming_runs", pool.Primed())
 	_ = gen.Half
 }
